@@ -20,7 +20,7 @@ ASSUMPTIONS = ["no verdict depends on a reply being fast: a slow 'deliver' only 
                "server-side execution counts are read after the server has handled every forwarded request (5 s watchdog, expiry = inconclusive)"]
 REQUIRED_REACH = ["calls_own_reply", "calls_comm_error", "faults_applied", "oneway_calls", "recovered_after_faults", "exactly_once_tokens", "retries_observed", "seq_wraps"]
 SHARD_TIMEOUT = {"quick": 240, "thorough": 3000}
-KINDS = ["echo", "echo", "echo", "boom", "pyroboom", "oneway", "batch", "attr", "stream", "batchow"]
+KINDS = ["echo", "echo", "echo", "boom", "pyroboom", "oneway", "batch", "attr", "stream", "batchow", "batchmix"]
 
 
 class ServerLog:
@@ -56,6 +56,13 @@ def make_env(P, servertype, variant=None):
         @P.server.oneway
         def fire(self, token):
             slog.hit(token)
+
+        @P.server.oneway
+        def quiet(self):
+            pass            # (a oneway-decorated method that is not counted: used as a batch member beside the counted call)
+
+        def plain(self, x):
+            return x
 
         @property
         def nonce(self):
@@ -150,6 +157,15 @@ def run_history(fx, slog, rl, rec, r, retries, ncalls, script, sername, hh):
                 elif kind == "batch":
                     b = shared_batch if reuse_batch else P.client.BatchProxy(p)
                     b.echo(tok)
+                    outcome = ("ret", list(b()))
+                elif kind == "batchmix":
+                    # a normal batch whose members include oneway-decorated methods: one result per member, in order
+                    b = shared_batch if reuse_batch else P.client.BatchProxy(p)
+                    b.plain("first")
+                    b.quiet()
+                    b.echo(tok)
+                    b.quiet()
+                    b.plain("last")
                     outcome = ("ret", list(b()))
                 elif kind == "batchow":
                     b = shared_batch if reuse_batch else P.client.BatchProxy(p)
@@ -252,6 +268,8 @@ def run_history(fx, slog, rl, rec, r, retries, ncalls, script, sername, hh):
                     rec.count("oneway_calls")
                 elif kind == "batch" and v != [tok]:
                     bad = ("foreign-reply-accepted", "batch [echo(%s)] returned %r" % (tok, v))
+                elif kind == "batchmix" and v != ["first", None, tok, None, "last"]:
+                    bad = ("foreign-reply-accepted", "batch [plain('first'), quiet(), echo(%s), quiet(), plain('last')] returned %r: results do not line up with the calls" % (tok, v))
                 elif kind == "attr":
                     if not isinstance(v, int) or v in nonces or (nonces and v < max(nonces)):
                         bad = ("foreign-reply-accepted", "attribute read returned %r after %r: a stale or foreign reply" % (v, nonces[-5:]))
